@@ -132,8 +132,7 @@ public:
   std::string recordName(const DeclContext *DC) {
     if (auto *RD = dyn_cast_or_null<CXXRecordDecl>(DC)) {
       if (RD->isLambda()) return "<lambda>";
-      QualType T = Ctx.getTypeDeclType(RD);
-      return T.getAsString(PP);
+      return fullName(RD);
     }
     return "";
   }
